@@ -320,3 +320,191 @@ Theorem real_format_local :
 Proof. exact PorySwitchLists.real_format_local. Qed.
 Print Assumptions real_format_local.
 
+
+(* ---- towards the program-level statement (TagRename.v). Loop / switch tags and command ids in the AST are the number of
+   tokens still to read, so a program and its poryswitch-free twin have different ASTs. emit_script_tag_renaming /
+   emit_script_renamed: the emitter is invariant under a renaming of tags that is injective on the tags of the body (needed:
+   non_injective_renaming_changes_output) and never reads a command id (emit_script_cids_ignored); same_shape_body_sim,
+   same_shape_same_output, compile_same_shape: two sources whose parsed programs have the same SHAPE (all tags and ids set
+   to 0) have the same compile outcome - no premise beyond the two parses; poryswitch_twin_same_shape: a script with a 3-case
+   poryswitch and its twin: different ASTs, same shape, same output. block_poryswitch_step, switch_block_poryswitch_step,
+   pory_stmts_poryswitch_step, stmt_cases_table, block_poryswitch_contributes: a poryswitch met in a block / case body /
+   poryswitch case appends exactly the statements and inline data of ONE written case (last case equal to the -s value,
+   else last '_'), parsed in place; nothing of any other case. NOT proved: that the parse of the twin has the same shape
+   (prefix locality of the statement parser up to shape). ---- *)
+From Pory Require Import Emitter TagRename. Open Scope list_scope.
+Theorem emit_script_renamed :
+  forall (g : nat -> nat) (h : cmd -> cmd) (mp : option text) (tl : list text) (name : text) (glob optimize : bool) (body : list stmt),
+  cmd_same h ->
+  inj_on g (atags body) ->
+  emit_script mp tl name glob optimize (mp_stmts g h body) = map_res (map (mp_instr h)) (emit_script mp tl name glob optimize body).
+Proof. exact TagRename.emit_script_renamed. Qed.
+Print Assumptions emit_script_renamed.
+
+Theorem emit_script_tag_renaming :
+  forall (g : nat -> nat) (mp : option text) (tl : list text) (name : text) (glob optimize : bool) (body : list stmt),
+  inj_on g (atags body) -> emit_script mp tl name glob optimize (rn_stmts g body) = emit_script mp tl name glob optimize body.
+Proof. exact TagRename.emit_script_tag_renaming. Qed.
+Print Assumptions emit_script_tag_renaming.
+
+Theorem script_text_renamed :
+  forall (g : nat -> nat) (h : cmd -> cmd) (mp : option text) (tl : list text) (name : text) (glob optimize : bool) (body : list stmt),
+  cmd_same h -> inj_on g (atags body) -> script_text mp tl name glob optimize (mp_stmts g h body) = script_text mp tl name glob optimize body.
+Proof. exact TagRename.script_text_renamed. Qed.
+Print Assumptions script_text_renamed.
+
+Theorem emit_script_cids_ignored :
+  forall (k : cmd -> nat) (mp : option text) (tl : list text) (name : text) (glob optimize : bool) (body : list stmt),
+  emit_script mp tl name glob optimize (recid_stmts k body) = map_res (map (mp_instr (set_cid k))) (emit_script mp tl name glob optimize body) /\
+  script_text mp tl name glob optimize (recid_stmts k body) = script_text mp tl name glob optimize body.
+Proof. exact TagRename.emit_script_cids_ignored. Qed.
+Print Assumptions emit_script_cids_ignored.
+
+Theorem emit_program_sim :
+  forall (optimize : bool) (mp : option text) (p1 p2 : program), program_sim p1 p2 -> emit_program optimize mp p1 = emit_program optimize mp p2.
+Proof. exact TagRename.emit_program_sim. Qed.
+Print Assumptions emit_program_sim.
+
+Theorem same_shape_body_sim :
+  forall b1 b2 : list stmt,
+  shape b1 = shape b2 ->
+  Tr.scoped None None b1 -> Tr.scoped None None b2 -> NoDup (Worklist.tags b1) -> NoDup (Worklist.tags b2) -> body_sim b1 b2.
+Proof. exact TagRename.same_shape_body_sim. Qed.
+Print Assumptions same_shape_body_sim.
+
+Theorem body_sim_same_shape :
+  forall b1 b2 : list stmt, body_sim b1 b2 -> shape b1 = shape b2.
+Proof. exact TagRename.body_sim_same_shape. Qed.
+Print Assumptions body_sim_same_shape.
+
+Theorem same_shape_same_output :
+  forall (optimize : bool) (mp : option text) (p1 p2 : program),
+  shape_program p1 = shape_program p2 ->
+  Forall body_ok (ProgWf.bodies_of (tops p1)) ->
+  Forall body_ok (ProgWf.bodies_of (tops p2)) -> emit_program optimize mp p1 = emit_program optimize mp p2.
+Proof. exact TagRename.same_shape_same_output. Qed.
+Print Assumptions same_shape_same_output.
+
+Theorem compile_same_shape :
+  forall (hl hd hs : N -> bool) (av1 av2 : list (text * autovar)) (sw1 sw2 : list (text * text)) (ee1 ee2 : bool) (fc1 fc2 : fontcfg)
+    (font1 font2 : text) (ml1 ml2 : Z) (optimize : bool) (mpath : option text) (s1 s2 : text) (p1 p2 : program),
+  parse_program av1 sw1 ee1 (parse_format fc1 font1 ml1 ee1) (lex hl hd hs s1) = Parser.Ok p1 ->
+  parse_program av2 sw2 ee2 (parse_format fc2 font2 ml2 ee2) (lex hl hd hs s2) = Parser.Ok p2 ->
+  shape_program p1 = shape_program p2 ->
+  Compile.compile hl hd hs av1 sw1 ee1 fc1 font1 ml1 optimize mpath s1 = Compile.compile hl hd hs av2 sw2 ee2 fc2 font2 ml2 optimize mpath s2.
+Proof. exact TagRename.compile_same_shape. Qed.
+Print Assumptions compile_same_shape.
+
+Theorem non_injective_renaming_changes_output :
+  ~ inj_on (fun _ : nat => 0) (atags two_loops) /\
+  script_text None [] (t "s") true false (rn_stmts (fun _ : nat => 0) two_loops) <> script_text None [] (t "s") true false two_loops /\
+  (exists x : text, script_text None [] (t "s") true false (rn_stmts (fun _ : nat => 0) two_loops) = Ok x) /\
+  (exists x : text, script_text None [] (t "s") true false two_loops = Ok x).
+Proof. exact TagRename.non_injective_renaming_changes_output. Qed.
+Print Assumptions non_injective_renaming_changes_output.
+
+Theorem poryswitch_twin_same_shape :
+  exists p1 p2 : program,
+    parse0 src_pory = Parser.Ok p1 /\
+    parse0 src_twin = Parser.Ok p2 /\
+    tops p1 <> tops p2 /\
+    shape_program p1 = shape_program p2 /\ comp0 src_pory = comp0 src_twin /\ (exists x : text, comp0 src_pory = Compile.OutText x).
+Proof. exact TagRename.poryswitch_twin_same_shape. Qed.
+Print Assumptions poryswitch_twin_same_shape.
+
+Import BlockStep.
+Theorem block_poryswitch_step :
+  forall (autovars : list (text * autovar)) (switches : list (text * text)) (env_errors : bool)
+    (parse_format : toks -> Parser.res (token * text * text * toks)) (consts : list (text * text)) (f : nat) (script : text) 
+    (bs cs : list nat) (start : token) (ts : toks) (acc : list stmt) (imp : impdata) (sc : text) (sv : option text) 
+    (ts1 : toks) (cases : list (text * (list stmt * impdata))) (ts2 : toks),
+  curis PORYSWITCH ts = true ->
+  poryswitch_header switches env_errors ts = Parser.Ok (sc, sv, ts1) ->
+  parse_pory_cases autovars switches env_errors parse_format consts f script bs cs (cur ts1) ts1 [] = Parser.Ok (cases, ts2) ->
+  parse_block autovars switches env_errors parse_format consts (S (S (S f))) script bs cs start ts acc imp =
+  match pory_select cases sv with
+  | Some (ss, imp') =>
+      parse_block autovars switches env_errors parse_format consts (S (S f)) script bs cs start (adv ts2) (acc ++ ss) (impadd imp imp')
+  | None =>
+      if env_errors
+      then err_tok (cur ts) "no poryswitch case found"
+      else parse_block autovars switches env_errors parse_format consts (S (S f)) script bs cs start (adv ts2) (acc ++ []) (impadd imp imp0)
+  end.
+Proof. exact TagRename.BlockStep.block_poryswitch_step. Qed.
+Print Assumptions block_poryswitch_step.
+
+Theorem switch_block_poryswitch_step :
+  forall (autovars : list (text * autovar)) (switches : list (text * text)) (env_errors : bool)
+    (parse_format : toks -> Parser.res (token * text * text * toks)) (consts : list (text * text)) (f : nat) (script : text) 
+    (bs cs : list nat) (start : token) (ts : toks) (acc : list stmt) (imp : impdata) (sc : text) (sv : option text) 
+    (ts1 : toks) (cases : list (text * (list stmt * impdata))) (ts2 : toks),
+  curis PORYSWITCH ts = true ->
+  poryswitch_header switches env_errors ts = Parser.Ok (sc, sv, ts1) ->
+  parse_pory_cases autovars switches env_errors parse_format consts f script bs cs (cur ts1) ts1 [] = Parser.Ok (cases, ts2) ->
+  parse_switch_block autovars switches env_errors parse_format consts (S (S (S f))) script bs cs start ts acc imp =
+  match pory_select cases sv with
+  | Some (ss, imp') =>
+      parse_switch_block autovars switches env_errors parse_format consts (S (S f)) script bs cs start (adv ts2) (acc ++ ss) (impadd imp imp')
+  | None =>
+      if env_errors
+      then err_tok (cur ts) "no poryswitch case found"
+      else
+       parse_switch_block autovars switches env_errors parse_format consts (S (S f)) script bs cs start (adv ts2) (acc ++ []) (impadd imp imp0)
+  end.
+Proof. exact TagRename.BlockStep.switch_block_poryswitch_step. Qed.
+Print Assumptions switch_block_poryswitch_step.
+
+Theorem pory_stmts_poryswitch_step :
+  forall (autovars : list (text * autovar)) (switches : list (text * text)) (env_errors : bool)
+    (parse_format : toks -> Parser.res (token * text * text * toks)) (consts : list (text * text)) (f : nat) (script : text) 
+    (bs cs : list nat) (multi : bool) (ts : toks) (acc : list stmt) (imp : impdata) (sc : text) (sv : option text) (ts1 : toks)
+    (cases : list (text * (list stmt * impdata))) (ts2 : toks),
+  curis PORYSWITCH ts = true ->
+  poryswitch_header switches env_errors ts = Parser.Ok (sc, sv, ts1) ->
+  parse_pory_cases autovars switches env_errors parse_format consts f script bs cs (cur ts1) ts1 [] = Parser.Ok (cases, ts2) ->
+  parse_pory_stmts autovars switches env_errors parse_format consts (S (S f)) script bs cs multi ts acc imp =
+  (let continue :=
+     fun (ss : list stmt) (imp' : impdata) =>
+     if multi
+     then parse_pory_stmts autovars switches env_errors parse_format consts (S f) script bs cs multi (adv ts2) (acc ++ ss) (impadd imp imp')
+     else Parser.Ok (acc ++ ss, impadd imp imp', adv ts2) in
+   match pory_select cases sv with
+   | Some (ss, imp') => continue ss imp'
+   | None => if env_errors then err_tok (cur ts) "no poryswitch case found" else continue [] imp0
+   end).
+Proof. exact TagRename.BlockStep.pory_stmts_poryswitch_step. Qed.
+Print Assumptions pory_stmts_poryswitch_step.
+
+Theorem stmt_cases_table :
+  forall (autovars : list (text * autovar)) (switches : list (text * text)) (env_errors : bool)
+    (parse_format : toks -> Parser.res (token * text * text * toks)) (consts : list (text * text)) (f : nat) (script : text) 
+    (bs cs : list nat) (start : token) (ts : toks) (cases : list (text * (list stmt * impdata))) (ts' : toks),
+  parse_pory_cases autovars switches env_errors parse_format consts f script bs cs start ts [] = Parser.Ok (cases, ts') ->
+  exists l : list (text * (list stmt * impdata)),
+    stmt_case_seq autovars switches env_errors parse_format consts script bs cs ts l ts' /\ curis RBRACE ts' = true /\ cases = rev l.
+Proof. exact TagRename.BlockStep.stmt_cases_table. Qed.
+Print Assumptions stmt_cases_table.
+
+Theorem block_poryswitch_contributes :
+  forall (autovars : list (text * autovar)) (switches : list (text * text)) (env_errors : bool)
+    (parse_format : toks -> Parser.res (token * text * text * toks)) (consts : list (text * text)) (f : nat) (script : text) 
+    (bs cs : list nat) (start : token) (ts : toks) (acc : list stmt) (imp : impdata) (sc : text) (sv : option text) 
+    (ts1 : toks) (cases : list (text * (list stmt * impdata))) (ts2 : toks) (ss : list stmt) (imp' : impdata),
+  curis PORYSWITCH ts = true ->
+  poryswitch_header switches env_errors ts = Parser.Ok (sc, sv, ts1) ->
+  parse_pory_cases autovars switches env_errors parse_format consts f script bs cs (cur ts1) ts1 [] = Parser.Ok (cases, ts2) ->
+  pory_select cases sv = Some (ss, imp') ->
+  parse_block autovars switches env_errors parse_format consts (S (S (S f))) script bs cs start ts acc imp =
+  parse_block autovars switches env_errors parse_format consts (S (S f)) script bs cs start (adv ts2) (acc ++ ss) (impadd imp imp') /\
+  curis RBRACE ts2 = true /\
+  (exists (l : list (text * (list stmt * impdata))) (x : text) (l1 l2 : list (text * (list stmt * impdata))) (tsc tsn : toks),
+     cases = rev l /\
+     l = l1 ++ (x, (ss, imp')) :: l2 /\
+     assoc l2 x = None /\
+     (x = sval sv \/ x = t "_" /\ assoc l (sval sv) = None) /\
+     stmt_case_seq autovars switches env_errors parse_format consts script bs cs ts1 l1 tsc /\
+     stmt_case_step autovars switches env_errors parse_format consts script bs cs tsc x ss imp' tsn /\
+     stmt_case_seq autovars switches env_errors parse_format consts script bs cs tsn l2 ts2).
+Proof. exact TagRename.BlockStep.block_poryswitch_contributes. Qed.
+Print Assumptions block_poryswitch_contributes.
+
